@@ -25,7 +25,7 @@ SIGS = {"int": signal.SIGINT, "term": signal.SIGTERM, "kill": signal.SIGKILL}
 # assignment of `_fd/_pid`, they change nothing else.  IMPORT: what the re-imported main module did at
 # import time in a `loky_init_main` child (see tt_root).
 LAUNCHED = []
-SLOW = {"spawn": 0.0, "probe": 0.0}
+SLOW = {"spawn": 0.0, "probe": 0.0, "stagger": 0.0}
 IMPORT = {}
 IMPORT_OBJS = {}
 _installed = []
@@ -61,6 +61,12 @@ def install():
     orig_probe = rt.ResourceTracker._check_alive
 
     def _check_alive(self):
+        if SLOW.get("stagger"):
+            # the threads of a concurrent step enter the probe one after the other: a probe made outside the lock
+            # (a lock-free "fast path") then overlaps with the relaunch another thread performs under the lock
+            nm = threading.current_thread().name
+            if nm.startswith("tt-op-"):
+                time.sleep(SLOW["stagger"] * int(nm[6:]))
         r = orig_probe(self)
         if SLOW["probe"]:
             time.sleep(SLOW["probe"])
